@@ -825,6 +825,12 @@ class SamplingMethod(DirectMethod):
     def get_signals_at(self, stage, k=-1):
         return veccat(*[e.sampled[k] for e in self.signals.values()])
 
+    def get_signals_at_fraction(self, stage, k, frac):
+        """Values of the B-spline signals at a fraction (0<=frac<1) of control interval k"""
+        if frac==0:
+            return self.get_signals_at(stage, k)
+        return veccat(*[e.sample(subgrid=DM(frac), include_edges=False)[:,k] for e in self.signals.values()])
+
     def get_p_sys(self, stage, k, include_signals=True, signal_values=None):
         """Values for the parameter input of the system functions, laid out like vertcat(stage.p, stage.v):
         bspline parameters follow the other parameters, bspline variables follow the other variables.
@@ -985,6 +991,7 @@ class SamplingMethod(DirectMethod):
                                                                v_control=self.get_v_control_at(stage, k),
                                                                v_control_plus=self.get_v_control_plus_at(stage, k),
                                                                v_states=self.get_v_states_at(stage, k),
+                                                               signals=(self.signals, self.get_signals_at_fraction(stage, k, i/self.M)),
                                                                t=self.integrator_grid[k][i],
                                                                DT=DT,
                                                                DT_control=DT_control))
@@ -1004,6 +1011,7 @@ class SamplingMethod(DirectMethod):
                                                                v=self.V, p=veccat(*self.P),
                                                                v_control=self.get_v_control_at(stage, k),
                                                                v_control_plus=self.get_v_control_plus_at(stage, k),
+                                                               signals=(self.signals, self.get_signals_at_fraction(stage, k, (i+float(self.tau[j]))/self.M)),
                                                                t=self.tr[k][i][j],
                                                                DT=DT,
                                                                DT_control=DT_control))
